@@ -9,7 +9,7 @@
     Hence poll number floor(L/B) + 1 and all later ones are silent.  With no stale entries
     L <= held, which gives the "held + 2" bound; stale entries (wake-ups of vacant slots) also
     cost budget, which is the open finding F9 when there are more than B of them. *)
-From FB Require Import Base Syntax World SlotMap Fub Tactics SlotMapProofs.
+From FB Require Import Base Syntax World SlotMap Fub Tactics SlotMapProofs WorldProofs.
 Set Implicit Arguments.
 
 Definition quiet_script (k : ckind) (s : script) : Prop :=
@@ -34,6 +34,8 @@ Qed.
 
 Lemma forced_inc_noinj k w : noinj w -> forced_inc k w = false.
 Proof. unfold noinj, forced_inc. intros ->. reflexivity. Qed.
+
+Lemma get_blk_emit' e w b : get_blk (emit e w) b = get_blk w b. Proof. reflexivity. Qed.
 
 Lemma get_put_same w b k k0 : get_blk w b = Some k0 -> get_blk (put_blk b k w) b = Some k.
 Proof.
@@ -62,6 +64,7 @@ Lemma pop_noinj b w kb :
   | i :: q => exists w', pop b w = (PopReady i, w')
               /\ get_blk w' b = Some (blk_set_flags (blk_set_queue kb q) (upd (bflags kb) i false))
               /\ winj w' = winj w /\ log w' = log w
+              /\ (forall b', b' <> b -> get_blk w' b' = get_blk w b')
   end.
 Proof.
   intros Hn Hk. unfold pop.
@@ -78,7 +81,9 @@ Proof.
     set (w2 := put_blk b (blk_set_flags (blk_set_queue kb q) (upd (bflags (blk_set_queue kb q)) i false)) w1).
     assert (Hn2 : noinj w2) by exact Hn.
     rewrite (run_inj_noinj _ _ _ Hn2).
-    exists w2. splits; auto. unfold w2. eapply get_put_same; eauto.
+    exists w2. splits; auto; [unfold w2; eapply get_put_same; eauto|].
+    intros b' Hne. unfold w2, w1. rewrite !get_put_blk.
+    destruct (Nat.eqb_spec b b'); [congruence|reflexivity].
 Qed.
 
 (** the drain loop under quietness *)
@@ -87,7 +92,8 @@ Lemma drain_quiet k n f t w kb :
   let '(f', pr, w') := drain k n f t w in
   pr = PPending /\ quiet_map k (tasks f') /\ noinj w' /\ blk f' = blk f
   /\ (exists kb', get_blk w' (blk f) = Some kb' /\ bqueue kb' = skipn n (bqueue kb))
-  /\ twakes (log w') = twakes (log w) + (if Nat.ltb (length (bqueue kb)) n then 0 else 1).
+  /\ twakes (log w') = twakes (log w) + (if Nat.ltb (length (bqueue kb)) n then 0 else 1)
+  /\ (forall b', b' <> blk f -> get_blk w' b' = get_blk w b').
 Proof.
   revert f w kb. induction n as [|n IH]; intros f w kb Hq Hn Hk; cbn [drain].
   - assert (Hsw : self_wake (blk f) t w = emit (ETWake t CCrate) (put_blk (blk f) (blk_set_tw kb) w))
@@ -98,10 +104,11 @@ Proof.
         with (get_blk (put_blk (blk f) (blk_set_tw kb) w) (blk f)).
       eapply get_put_same; eauto.
     + simpl. lia.
+    + intros b' Hne. rewrite get_blk_emit', get_put_blk. destruct (Nat.eqb_spec (blk f) b'); [congruence|reflexivity].
   - pose proof (@pop_noinj (blk f) w kb Hn Hk) as Hp.
     destruct (bqueue kb) as [|i q] eqn:Hqq.
     + rewrite Hp. splits; auto. exists kb. split; auto.
-    + destruct Hp as (w1 & -> & Hg1 & Hi1 & Hl1).
+    + destruct Hp as (w1 & -> & Hg1 & Hi1 & Hl1 & Hf1).
       assert (Hn1 : noinj w1) by (unfold noinj in *; congruence).
       destruct (sm_get (tasks f) i) as [c|] eqn:Hg.
       * destruct (Hq _ _ Hg) as [Hd Hs].
@@ -117,13 +124,16 @@ Proof.
         specialize (IH {| tasks := sm_set (tasks f) i c'; blk := blk f |} w2
                        (blk_set_flags (blk_set_queue kb q) (upd (bflags kb) i false)) Hq' Hn2 Hg2).
         destruct (drain k n {| tasks := sm_set (tasks f) i c'; blk := blk f |} t w2) as [[f' pr] w'].
-        destruct IH as (I1 & I2 & I3 & I4 & I5 & I6). splits; auto.
-        rewrite I6, C6, Hl1. simpl.
-        destruct (Nat.ltb_spec (length q) n), (Nat.ltb_spec (S (length q)) (S n)); lia.
+        destruct IH as (I1 & I2 & I3 & I4 & I5 & I6 & I7). splits; auto.
+        { rewrite I6, C6, Hl1. simpl.
+          destruct (Nat.ltb_spec (length q) n), (Nat.ltb_spec (S (length q)) (S n)); lia. }
+        intros b' Hne. rewrite (I7 b' Hne), <- (Hf1 b' Hne). unfold get_blk. rewrite C4. reflexivity.
       * specialize (IH f w1 (blk_set_flags (blk_set_queue kb q) (upd (bflags kb) i false)) Hq Hn1 Hg1).
-        destruct (drain k n f t w1) as [[f' pr] w']. destruct IH as (I1 & I2 & I3 & I4 & I5 & I6).
-        splits; auto. rewrite I6, Hl1. simpl.
-        destruct (Nat.ltb_spec (length q) n), (Nat.ltb_spec (S (length q)) (S n)); lia.
+        destruct (drain k n f t w1) as [[f' pr] w']. destruct IH as (I1 & I2 & I3 & I4 & I5 & I6 & I7).
+        splits; auto.
+        { rewrite I6, Hl1. simpl.
+          destruct (Nat.ltb_spec (length q) n), (Nat.ltb_spec (S (length q)) (S n)); lia. }
+        intros b' Hne. rewrite (I7 b' Hne). apply Hf1; auto.
 Qed.
 
 Section WithParams.
@@ -135,7 +145,8 @@ Theorem poll_quiet k f t w kb :
   let '(f', pr, w') := poll_inner_no_remove P k f t w in
   pr = PPending /\ quiet_map k (tasks f') /\ noinj w' /\ blk f' = blk f
   /\ (exists kb', get_blk w' (blk f) = Some kb' /\ bqueue kb' = skipn (pB P) (bqueue kb))
-  /\ twakes (log w') = twakes (log w) + (if Nat.ltb (length (bqueue kb)) (pB P) then 0 else 1).
+  /\ twakes (log w') = twakes (log w) + (if Nat.ltb (length (bqueue kb)) (pB P) then 0 else 1)
+  /\ (forall b', b' <> blk f -> get_blk w' b' = get_blk w b').
 Proof.
   intros Hq Hn Hk Hne. unfold poll_inner_no_remove.
   destruct (Nat.eqb_spec (fub_len f) 0); [contradiction|].
@@ -147,7 +158,9 @@ Proof.
   assert (Hg0 : get_blk w0 (blk f) = Some (blk_set_last (blk_set_reg kb (Some t)) (Some t))).
   { unfold w0. change (get_blk (set_regk _ ?x) (blk f)) with (get_blk x (blk f)). eapply get_put_same; eauto. }
   pose proof (@drain_quiet k (pB P) f t w0 _ Hq Hn0 Hg0) as H.
-  destruct (drain k (pB P) f t w0) as [[f' pr] w']. exact H.
+  destruct (drain k (pB P) f t w0) as [[f' pr] w']. destruct H as (A & B & C & D & E & F & G). splits; auto.
+  intros b' Hb. rewrite (G b' Hb). unfold w0. change (get_blk (set_regk _ ?x) b') with (get_blk x b').
+  rewrite get_put_blk. destruct (Nat.eqb_spec (blk f) b'); [congruence|reflexivity].
 Qed.
 
 (** fewer than B queued: the poll is silent and leaves the queue empty — and so is every later one *)
@@ -160,7 +173,7 @@ Corollary poll_quiescent k f t w kb :
 Proof.
   intros Hq Hn Hk Hne Hlt.
   pose proof (@poll_quiet k f t w kb Hq Hn Hk Hne) as H.
-  destruct (poll_inner_no_remove P k f t w) as [[f' pr] w']. destruct H as (A & B & C & D & (kb' & E1 & E2) & F).
+  destruct (poll_inner_no_remove P k f t w) as [[f' pr] w']. destruct H as (A & B & C & D & (kb' & E1 & E2) & F & _).
   splits; auto.
   - rewrite F. destruct (Nat.ltb_spec (length (bqueue kb)) (pB P)); lia.
   - exists kb'. split; auto. rewrite E2. apply skipn_all2. lia.
